@@ -394,6 +394,11 @@ FIXED += [
         _c("Window", "", [("lo", ("ann", ("base", "int"), ("IntRange", 0, 3)))]),
         _c("Span", "", [("lo", ("ann", ("base", "int"), ("IntRange", 5, 9))), ("inner", ("sym", "Window")),
                         ("hi", ("ann", ("base", "int"), ("DepIntFrom", "lo", 9)))])]},
+    # ... the nested production's field of the same name has ANOTHER base type (a float must never reach the int field)
+    {"id": "depnestedf", "start": "Loop", "classes": [
+        _c("Band", "", [("lo", ("ann", ("base", "float"), ("FloatRange", 0.25, 2.75)))]),
+        _c("Loop", "", [("lo", ("ann", ("base", "int"), ("IntRange", 5, 9))), ("band", ("sym", "Band")),
+                        ("hi", ("ann", ("base", "int"), ("DepIntFrom", "lo", 9)))])]},
     # a dependent refinement with two dependencies listed in another order than they are declared
     {"id": "depwindow", "start": "Window", "classes": [
         _c("Window", "", [("offset", ("ann", ("base", "int"), ("IntRange", 100, 109))),
